@@ -213,6 +213,24 @@ def setup(c):
 PROFILES = ['small', 'uniform', 'near1', 'alt', 'mixed']
 
 
+def structured_rhs(Z, i):
+    """Every fifth right-hand side has exact zeros: a unit vector, leading zeros, trailing zeros."""
+    how = i % 15
+    if how not in (4, 9, 14) or len(Z) < 3:
+        return Z
+    Z = np.array(Z, copy=True)
+    if how == 4:
+        k = (i // 15) % len(Z)
+        v = Z[k]
+        Z[:] = 0
+        Z[k] = v if v != 0 else 1.0                 # a multiple of a unit vector
+    elif how == 9:
+        Z[:max(1, (2 * len(Z)) // 3)] = 0            # leading zeros
+    else:
+        Z[len(Z) // 3:] = 0                          # trailing zeros
+    return Z
+
+
 def rc_profile(rng, p, prof, cplx):
     if prof == 'small':
         m = rng.uniform(0, 0.2, p)
@@ -360,7 +378,7 @@ def run_case(c, d):
     cplx = bool(d['cplx'])
     if d['fn'] == 'HERMTOEP':
         r = make_ac(c, dict(d, src=d['src']))
-        Z = gen.noise(rng, p + 1, cplx)
+        Z = structured_rhs(gen.noise(rng, p + 1, cplx), d.get('i', 0))
         sc = (1.0, 1e-9, 1e9, 1e-12)[(d.get('i', 0) // 3) % 4]        # the same system in other units
         r, Z = np.asarray(r) * sc, Z * sc
         lmin, lmax = _definiteness(r, p)
@@ -384,7 +402,7 @@ def run_case(c, d):
             t0 = rng.uniform(0.5, 6.0) * (gen.noise(rng, 1, cplx)[0] if cplx else rng.choice([-1.0, 1.0]))
             if how == 2:
                 tc, tr = tc[:min(p, 8)], tr[:min(p, 8)]
-        Z = gen.noise(rng, len(tc) + 1, cplx)
+        Z = structured_rhs(gen.noise(rng, len(tc) + 1, cplx), d.get('i', 0))
         sc = (1.0, 1e-9, 1e9, 1e-12)[(d.get('i', 0) // 3) % 4]        # the same system in other units: equally admissible
         t0, tc, tr, Z = t0 * sc, tc * sc, tr * sc, Z * sc
         args = (t0, tc.astype(complex), tr.astype(complex), Z)
